@@ -1,7 +1,7 @@
 """C06 — reader API never panics or aborts, whatever the input (see panicfree.py for the engine)."""
 import panicfree
 from facts import short
-from mir import body_of, callee_path, op_place, op_const, place_key
+from mir import body_of, callee_path, op_place, op_const, place_key, strip_generics
 from packs_common import reader_entries, io_fallible_set, IO_TRAITS
 from report import site_of
 
@@ -147,6 +147,144 @@ def sc_lockstep_pushes(eng, fid, fn, it, ob):
     return n >= 2, "%d functions push to Mp4Track.trafs and .moof_offsets, always together" % n
 
 
+LEN_PRESERVING = ("get", "get_mut", "index", "index_mut", "iter", "iter_mut", "len", "is_empty", "last", "last_mut", "first", "first_mut",
+                  "deref", "deref_mut", "as_slice", "as_mut_slice", "as_ref", "as_mut", "clone", "push")
+
+
+def counted_fill(fx, body, coll):
+    """(end operand rendering, loop) when local Vec `coll` is created empty in this function and filled by exactly one push
+    per iteration of one `for _ in 0..E` loop whose other exits all leave the function; else (None, reason)"""
+    import loops as LP
+    sd = body.single_def(coll)
+    if not (sd and sd[2] == "call" and strip_generics(sd[3]["callee"].get("path") or "") in ("alloc::vec::Vec::with_capacity", "alloc::vec::Vec::new")):
+        return None, "collection is not created empty here"
+    def rooted(op):
+        pl = op_place(op)
+        if pl is None:
+            return False
+        l = pl["l"]
+        for _ in range(4):
+            if l == coll:
+                return True
+            d = body.single_def(l)
+            if d and d[2] == "assign" and d[3]["k"] == "ref":
+                l = d[3]["place"]["l"]
+            elif d and d[2] == "call" and strip_generics(d[3]["callee"].get("path") or "").split("::")[-1] in ("deref", "deref_mut") and d[3]["args"]:
+                pl2 = op_place(d[3]["args"][0])
+                if pl2 is None:
+                    return False
+                l = pl2["l"]
+            else:
+                return False
+        return False
+    pushes = []
+    for b, t in body.calls():
+        nm = strip_generics(t["callee"].get("path") or "").split("::")[-1]
+        if t["args"] and rooted(t["args"][0]):
+            if nm == "push":
+                pushes.append(b)
+            elif nm not in LEN_PRESERVING:
+                return None, "length may change through %s" % nm
+    if len(pushes) != 1:
+        return None, "%d push sites" % len(pushes)
+    fid = body.id
+    ls = LP.inventory(fx, fid)
+    inl = [L for L in ls if pushes[0] in L.own_blocks(ls)]
+    if len(inl) != 1:
+        return None, "push is not in exactly one loop"
+    L = inl[0]
+    if not all(body.dominates(pushes[0], la) for la in L.latches):
+        return None, "an iteration can skip the push"
+    nb, nt = LP.driver_next_call(body, L, ls)
+    if nt is None or "core::ops::range::Range<" not in (nt["callee"].get("full") or ""):
+        return None, "filling loop is not a range loop"
+    # the block reached when next() is None
+    normal = None
+    sw = body.term(nt["t"]) if nt.get("t") is not None else None
+    if sw and sw["k"] == "switch":
+        for v, tgt in sw["targets"]:
+            if v == 0:
+                normal = tgt
+        if normal is None:
+            normal = sw["otherwise"]
+    if normal is None or normal in L.blocks and False:
+        return None, "no exhaustion exit"
+    for b in L.blocks:
+        for x in body.succ[b]:
+            if x not in L.blocks and x != normal and not (b == nt.get("t") and x == normal):
+                if body.can_reach(x, normal):
+                    return None, "the loop can be left early and execution continues"
+    # the range: Range{start: 0, end: E}
+    return (L, nb, normal), ""
+
+
+def sc_counted_fill(eng, fid, fn, it, ob):
+    """index/get obligations on a vector filled by `for _ in 0..n { v.push(..) }`: len == n, and the index is proved < n"""
+    body = it.body
+    t = body.term(ob["block"])
+    if t["k"] != "call" or len(t["args"]) < 2:
+        return False, "not an indexing call"
+    # the collection local
+    pl = op_place(t["args"][0])
+    l = pl["l"] if pl else None
+    root = None
+    for _ in range(5):
+        if l is None:
+            break
+        d = body.single_def(l)
+        if d and d[2] == "call" and strip_generics(d[3]["callee"].get("path") or "") in ("alloc::vec::Vec::with_capacity", "alloc::vec::Vec::new"):
+            root = l
+            break
+        if d and d[2] == "assign" and d[3]["k"] == "ref":
+            l = d[3]["place"]["l"]
+        elif d and d[2] == "call" and d[3]["args"] and strip_generics(d[3]["callee"].get("path") or "").split("::")[-1] in ("deref", "deref_mut"):
+            p2 = op_place(d[3]["args"][0])
+            l = p2["l"] if p2 else None
+        else:
+            break
+    if root is None:
+        return False, "indexed collection is not a local vector created in this function"
+    fill, why = counted_fill(eng.fx, body, root)
+    if fill is None:
+        return False, why
+    L, nb, normal = fill
+    if not body.dominates(normal, ob["block"]):
+        return False, "the access is not after the filling loop"
+    # n = end of the filling range, at the filling loop's next() call
+    st1 = it.out_states.get(nb)
+    tgt = it.ref_target(st1, body.term(nb)["args"][0]) if st1 is not None else None
+    e1 = st1.cells.get(tgt + (".end",)) if tgt else None
+    st = it.out_states.get(ob["block"])
+    if e1 is None or st is None:
+        return False, "filling range not tracked"
+    isid, ilo, ihi, _ = it.read_op(st, t["args"][1], (ob["block"], "t"))
+    def lt_n(sid, depth=0):
+        if sid is None or depth > 3:
+            return False
+        if (sid, "<", e1) in st.rel:
+            return True
+        d = it.syms[sid].defn
+        # i + k < n  when  i < n - k
+        if d and d[0] in ("math", "bin") and d[1] == "Add":
+            a, b = d[2], d[3]
+            k = (d[6] if d[0] == "math" else d[5][0]) if b is None else None
+            if a is not None and k is not None:
+                for (x, op, y) in st.rel:
+                    if x == a and op == "<":
+                        dy = it.syms[y].defn
+                        if dy and dy[0] in ("math", "bin") and dy[1] == "Sub" and dy[2] == e1 and dy[3] is None and (dy[6] if dy[0] == "math" else dy[5][0]) == k:
+                            return True
+                # or an equal sum already compared with n (same operands, other site)
+                for (x, op, y) in st.rel:
+                    if op == "<" and y == e1:
+                        dx = it.syms[x].defn
+                        if dx and dx[0] in ("math", "bin") and dx[1] == "Add" and dx[2] == a and dx[3] is None and (dx[6] if dx[0] == "math" else dx[5][0]) == k:
+                            return True
+        return False
+    ok = lt_n(isid)
+    return ok, ("vector filled by one push per iteration of 0..n; index proved < n" if ok else "index not proved below the fill count")
+
+
 def sc_helper_index(name, need_present=False):
     """the accepted invariant rests on a postcondition of a private helper; lookup_post re-derives it from the helper's MIR"""
     def f(eng, fid, fn, it, ob):
@@ -192,6 +330,8 @@ ACCEPTED = [
     {"match": K("MoofBox::get_size|Overflow(Add)|size, Mp4Box::box_size(traf)"), "side": sc_trusted("A-MEM"),
      "reason": "sum of in-memory traf sizes; each parsed trun's 4*sample_count terms were bounded by its box size by the trun reader"},
     {"match": K("<StscBox as ReadBox<&mut R>>::read_box|unwrap_opt:unwrap|slice::get"), "side": sc_trusted("one push per iteration of 0..entry_count"),
+     "reason": "entries holds exactly entry_count elements (one push per iteration, every early exit returns) and i < entry_count (i + 1 < entry_count under the `i < entry_count - 1` test)"},
+    {"match": lambda fid, fn, ob, key: ob["kind"] == "call" and ob["what"] in ("index:index", "index:index_mut") and "ReadBox<" in fid, "side": sc_counted_fill, "soft": True,
      "reason": "entries holds exactly entry_count elements (one push per iteration, every early exit returns) and i < entry_count (i + 1 < entry_count under the `i < entry_count - 1` test)"},
     # ---- track.rs cross-function invariants (sample-table lookups)
     {"match": K("Mp4Track::find_traf_idx_and_sample_idx|Overflow(Sub)|global_idx, offset"), "side": sc_trusted("loop invariant offset <= global_idx"),
@@ -244,7 +384,7 @@ def build_engine(fx, chk):
     chk.anchor("PF", "Mp4Reader::read_header", rh)
     chk.anchor("PF", "Mp4Reader::read_fragment_header", rfh)
     chk.floor("PF", "reader entry points", len(ents), 200)
-    eng = panicfree.Engine(fx, chk, ents, asm, ACCEPTED, profile=getattr(fx, "profile", "dev"), field_exclude=set())
+    eng = panicfree.Engine(fx, chk, ents, asm, ACCEPTED, profile=getattr(fx, "profile", "dev"), field_exclude=set(), accepted_id="C06")
     return eng, ents
 
 
